@@ -12,11 +12,13 @@
      - both together for rectangular()/triangular() runs                 (C17_rectangular_partial, C17_triangular_partial)
      - rectangular_phase_end / rectangular_symmetric move the diagonal to the end without changing the product
                                                                          (C17_phase_end, C17_symmetric_phase_end)
-   Not proved (C17_full_statement): that the upper-triangular remainder is diagonal with unit-modulus entries
-   (needs an ordered field), floating-point error bounds, and takagi / williamson / bloch_messiah /
+     - for unitary V (V V^dagger = I) the remainder is diagonal with unit-modulus entries, so np.diag(localV)
+       loses nothing                                                     (C17_rectangular_full, C17_triangular_full,
+                                                                          C17_rectangular_MZ_full, C17_upper_unitary_diagonal)
+   Not proved: floating-point error bounds, and takagi / williamson / bloch_messiah /
    *_compact / sun_compact / graph embeddings (LAPACK numerics; checked per output by tools/props/c17.py). *)
-From Coq Require Import List Arith Bool ZArith Ring.
-From SFV Require Import C17.Model C17.Alg C17.Sched C17.PhaseEnd C17.Main.
+From Coq Require Import List Arith Bool ZArith Ring Lia.
+From SFV Require Import C17.Model C17.Alg C17.Sched C17.PhaseEnd C17.Main C17.Unitary.
 Import ListNotations.
 
 Section Statements.
@@ -122,6 +124,41 @@ Theorem C17_symmetric_phase_end :
       LinvMZ n h ts (rowscale d X) r c = rowscale (snd (phase_end_MZ ts d)) (LfwdMZ n h (fst (phase_end_MZ ts d)) X) r c.
 Proof. exact (phase_end_MZ_correct Kring). Qed.
 
+(* an upper-triangular matrix with orthonormal rows is diagonal with unit-modulus diagonal *)
+Theorem C17_upper_unitary_diagonal :
+  forall (n : nat) (U : matrix K), is_unitary n U ->
+    (forall r c, c < r -> r < n -> U r c = C0) ->
+    forall r c, r < n -> c < n -> (r <> c -> U r c = C0) /\ (r = c -> unit_c (U r c)).
+Proof. exact (upper_unitary_diagonal Kring). Qed.
+
+(* the full statement: for unitary V the remainder of rectangular() is diagonal with unit-modulus entries *)
+Theorem C17_rectangular_full :
+  forall (n : nat) (ts : list (tparam K)) (V : matrix K),
+    Forall trig ts ->
+    valid n (rect_schedule n) (map2 T_block (rect_schedule n) ts) V ->
+    is_unitary n V ->
+    let D := run n (rect_schedule n) (map2 T_block (rect_schedule n) ts) V in
+    forall r c, r < n -> c < n -> (r <> c -> D r c = C0) /\ (r = c -> unit_c (D r c)).
+Proof. exact (rectangular_full Kring). Qed.
+
+Theorem C17_triangular_full :
+  forall (n : nat) (ts : list (tparam K)) (V : matrix K),
+    Forall trig ts ->
+    valid n (tri_schedule n) (map2 T_block (tri_schedule n) ts) V ->
+    is_unitary n V ->
+    let D := run n (tri_schedule n) (map2 T_block (tri_schedule n) ts) V in
+    forall r c, r < n -> c < n -> (r <> c -> D r c = C0) /\ (r = c -> unit_c (D r c)).
+Proof. exact (triangular_full Kring). Qed.
+
+Theorem C17_rectangular_MZ_full :
+  forall (n : nat) (h : K) (ts : list (mzparam K)) (V : matrix K),
+    kadd h h = k1 -> Forall (fun t => unit_c (mu t) /\ unit_c (mw t)) ts ->
+    valid n (rect_schedule n) (map2 (MZ_block h) (rect_schedule n) ts) V ->
+    is_unitary n V ->
+    let D := run n (rect_schedule n) (map2 (MZ_block h) (rect_schedule n) ts) V in
+    forall r c, r < n -> c < n -> (r <> c -> D r c = C0) /\ (r = c -> unit_c (D r c)).
+Proof. exact (rectangular_MZ_full Kring). Qed.
+
 End Statements.
 
 Print Assumptions C17_rectangular_order_nulls.
@@ -135,16 +172,10 @@ Print Assumptions C17_rectangular_MZ_partial.
 Print Assumptions C17_phase_end.
 Print Assumptions C17_symmetric_phase_end.
 
-(* The part of the property that is not proved: the remainder D of rectangular()/triangular() is diagonal with
-   unit-modulus entries whenever V is unitary (then np.diag(localV) loses nothing). *)
-Definition C17_full_statement : Prop :=
-  forall (K : Type) (O : Ops K), ring_theory k0 k1 kadd kmul ksub kopp (@eq K) ->
-  forall (n : nat) (ts : list (tparam K)) (V : matrix K),
-    Forall trig ts ->
-    valid n (rect_schedule n) (map2 T_block (rect_schedule n) ts) V ->
-    is_unitary n V ->
-    let D := run n (rect_schedule n) (map2 T_block (rect_schedule n) ts) V in
-    forall r c, r < n -> c < n -> (r <> c -> D r c = C0) /\ (r = c -> unit_c (D r c)).
+Print Assumptions C17_upper_unitary_diagonal.
+Print Assumptions C17_rectangular_full.
+Print Assumptions C17_triangular_full.
+Print Assumptions C17_rectangular_MZ_full.
 
 (* ---- the hypotheses are satisfiable ---- *)
 #[local] Instance ZOps : Ops Z := {| k0 := 0%Z; k1 := 1%Z; kadd := Z.add; kmul := Z.mul; ksub := Z.sub; kopp := Z.opp |}.
@@ -154,8 +185,12 @@ Definition Zring : ring_theory (k0 : Z) k1 kadd kmul ksub kopp (@eq Z) := Zth.
 Definition swap2 : matrix Z := fun r c => if (r + c =? 1)%nat then C1 else C0.
 Example C17_hypotheses_satisfiable :
   Forall trig [mkT 0%Z 1%Z C1] /\
-  valid 2 (rect_schedule 2) (map2 T_block (rect_schedule 2) [mkT 0%Z 1%Z C1]) swap2.
-Proof. split; [repeat constructor | cbn; repeat split]. Qed.
+  valid 2 (rect_schedule 2) (map2 T_block (rect_schedule 2) [mkT 0%Z 1%Z C1]) swap2 /\
+  is_unitary 2 swap2.
+Proof.
+  split; [repeat constructor | split; [cbn; repeat split|]].
+  intros r c Hr Hc. destruct r as [|[|r]]; destruct c as [|[|c]]; try lia; reflexivity.
+Qed.
 
 (* a 3-4-5 rotation over Q-free integers scaled: unit complex numbers exist beyond 1 (e = i) *)
 Example C17_unit_satisfiable : unit_c (Ci : C Z) /\ trig (mkT 0%Z 1%Z (Ci : C Z)).
